@@ -30,6 +30,8 @@ CLAIMED = {
          "Seeded search over datagram sizes 0..70000 and 1-3 buffer layouts on both sides (receive buffers from 8 bytes up, truncating), send timings and same-instant bursts up to 400, send-buffer sizes, sets of 2-5 sockets binding / closing / re-binding 3 contended ports over time on 2-4 nodes (multi-homed, NAT), three receive styles and draining readers, routes with latency, bandwidth and finite tail-dropping queues. Every receive is attributed to exactly one send; destination incarnation, sender endpoint, per-flow order, send_to error codes and would_block are checked; at the end all sockets are drained and every undelivered datagram must have a stated reason established from probe logs and a shadow account of unread bytes.", "3.8"),
  "C11": ("registry", "exploration", "deterministic simulation: seeded bind/close/move histories vs a reference registry, with behavioural probes",
          "Seeded search over sequences of open / bind (explicit, second address, wildcard, port 0, privileged, foreign, wrong family, a currently held endpoint) / listen / connect with implicit bind / close / re-open / move / destroy / accept and close of accepted sockets over TCP sockets, acceptors and UDP sockets on single-, dual-homed, dual-stack and IPv6-only nodes; the guarded knob moves the ephemeral counter next to its wrap in 40 % of runs. After every step the error code must be in the set the statement allows, the resolved endpoint and local_endpoint must match a reference registry, and probe connects / datagrams to every endpoint ever bound must reach exactly the registry's current holder.", "3.11"),
+ "C14": ("resolver", "exploration", "deterministic simulation: seeded resolve/cancel histories vs the completion-time recurrence, plus a small exhaustive sweep",
+         "Seeded search over sequences of async_resolve (host names with per-name latency, 0-3 addresses or an error; IPv4/IPv6 literals; unknown names; numeric ports) and cancel on TCP and UDP resolvers, issued at the same instant, microseconds to 400 ms apart, 100-700 ns apart, and from inside completion handlers; every completion is compared with the recurrence max(request, previous pending lookup)+latency (+<=1 us per literal pending), request order, exactly-once, the configured result, and hostname_lookup call counts; plus every sequence of up to 3 (quick) / 4 (thorough) lookups over a small alphabet with a cancel at every position.", "3.14"),
 }
 
 NOT_YET = "not claimed yet: the engine for this property is still under construction in this tree"
